@@ -432,7 +432,15 @@ func (g *gen) xpath() string {
 			sb.WriteString(g.name())
 		}
 		if r.Chance(0.25) {
-			switch r.Pick(5) {
+			switch r.Pick(7) {
+			case 5:
+				if !desc {
+					sb.WriteString("[last()]")
+				}
+			case 6:
+				if !desc {
+					sb.WriteString(r.PickStr("[position()<last()]", "[position() < last()]"))
+				}
 			case 0:
 				if !desc {
 					fmt.Fprintf(&sb, "[%d]", r.Between(1, 3))
@@ -459,7 +467,8 @@ func (g *gen) xpath() string {
 	return sb.String()
 }
 
-var constPool = []string{"k", " padded ", "42", "-7", "3.5", "true", "F", "", "  ", "x y", "1.250", "007", "a", "b/c", "abc ", "+5", "zz"}
+var constPool = []string{"k", " padded ", "42", "-7", "3.5", "true", "F", "", "  ", "x y", "1.250", "007", "a", "b/c", "abc ", "+5", "zz",
+	"010", "0100", "-017", "08", "09", "0x1F", "0o17", "0b11", "1_000", " 7 ", "1e3", "1E+2", "1.5e-2", "2e", "TRUE", "t", "yes", "1"}
 
 // int64 boundary literals: only ever placed as `{const, type: int|string}` object members, so that
 // they never reach a float cast (the model covers float64 for <= 15 significant digits)
@@ -534,7 +543,7 @@ func (g *gen) arg(c gctx, want string) *GDecl {
 			if r.Chance(0.5) {
 				return &GDecl{XPath: sp(g.xpath()), NoTrim: r.Chance(0.3), Keep: r.Chance(0.2)}
 			}
-			return &GDecl{Const: sp(constPool[r.Pick(17)]), NoTrim: r.Chance(0.4)}
+			return &GDecl{Const: sp(constPool[r.Pick(len(constPool))]), NoTrim: r.Chance(0.4)}
 		}
 	}
 	return g.decl(ac)
@@ -608,7 +617,7 @@ func (g *gen) decl(c gctx) *GDecl {
 		}
 		return d
 	case x < 47:
-		d := &GDecl{External: sp(r.PickStr("ext1", "ext2", "missing"))}
+		d := &GDecl{External: sp(r.PickStr("ext1", "ext2", "ext3", "ext4", "ext5", "missing"))}
 		g.flags(d)
 		return d
 	case x < 66 && canNest && !c.inArg:
@@ -849,6 +858,11 @@ func (g *gen) schema() (Decls, string) {
 			if r.Chance(0.3) {
 				add("pv", &GDecl{HasArray: true, Array: []*GDecl{{XPath: sp("v:" + nm)}}})
 			}
+			if r.Chance(0.6) {
+				add("plast", &GDecl{XPath: sp(r.PickStr(nm+"[last()]", "*[last()]", nm+"[2]")), Keep: r.Chance(0.3)})
+				add("pinit", &GDecl{HasArray: true, Array: []*GDecl{{XPath: sp(r.PickStr(nm+"[position()<last()]", nm+"[position() < last()]", "*[position()<last()]"))}}})
+				add("pobj", &GDecl{XPath: sp(r.PickStr(nm+"[last()]", "*[last()]")), HasObject: true, Object: []KV{{"t", &GDecl{XPath: sp(".")}}}})
+			}
 		}
 		sort.Slice(fo.Object, func(i, j int) bool { return fo.Object[i].Key < fo.Object[j].Key })
 	}
@@ -882,7 +896,9 @@ func (g *gen) schema() (Decls, string) {
 // ---- records -------------------------------------------------------------------------------------
 
 var textPool = []string{"v", "w", " v ", "1", "2", "42", "-7", "3.5", "true", "false", "x", "", " ", "\tTab\n", "a b", "007",
-	"1.250", "T", " nb　", "b", "c", "+5", ".5", "10.", "1234567", "0.000125"}
+	"1.250", "T", " nb　", "b", "c", "+5", ".5", "10.", "1234567", "0.000125",
+	// literals that tell strconv.ParseInt(s, 10, 64) from a base-guessing parse, and ParseBool's exact set
+	"010", "0100", "-017", "0020", "08", "09", "0x1F", "0o17", "0b11", "1_000", " 7 ", "TRUE", "t", "yes", "False"}
 
 func (g *gen) text() string { return textPool[g.r.Pick(len(textPool))] }
 
@@ -920,6 +936,17 @@ func (g *gen) xmlElem(sb *strings.Builder, name string, depth int) {
 	}
 	if nk == 0 || r.Chance(0.3) {
 		sb.WriteString(xmlEsc(g.text()))
+	}
+	if depth == 3 && r.Chance(0.5) {
+		// directly under the record (which carries attributes): 2..3 children with one name, so
+		// that last() / position() have something to count
+		for i := r.Between(2, 3); i > 0; i-- {
+			sb.WriteString("<item")
+			if r.Chance(0.5) {
+				sb.WriteString(` k="` + xmlEsc(predVals[r.Pick(len(predVals))]) + `"`)
+			}
+			sb.WriteString(">" + xmlEsc(g.text()) + "</item>")
+		}
 	}
 	if depth == 3 && g.nsDoc && r.Chance(0.7) {
 		// directly under the record: the same local name with and without a prefix
@@ -1053,7 +1080,8 @@ func (g *gen) jsonDoc(nrec int) string {
 var flatCols = []string{"a", "b", "c", "x"}
 
 func (g *gen) flatCell() string {
-	return g.r.PickStr("v", "w", "1", "2", "42", "-7", "3.5", "true", "x", "", "a b", "007", "T")
+	return g.r.PickStr("v", "w", "1", "2", "42", "-7", "3.5", "true", "x", "", "a b", "007", "T",
+		"010", "08", "0x1F", "1e3", "1_0", "TRUE", "0o17", "-017", "1E+2", "yes")
 }
 
 func (g *gen) csvDoc(nrec int) string {
